@@ -446,3 +446,47 @@ fn verif_cex_encoder_lag_is_bounded() {
         }
     }
 }
+
+#[test]
+fn verif_cex_decoder_production_headers() {
+    // public Decoder, production limits: streams `00 | lo hi | body` for header digits around the radix (FC..FF)
+    // and small high digits, with a body of exactly / one less than the announced size, followed by a valid final
+    // chunk or nothing -- whole, bytewise, and split inside the two-byte header.  Compared with the automaton twin.
+    for lo in [0x00u8, 0x01, 0xfb, 0xfc, 0xfd, 0xfe, 0xff] {
+        for hi in [0x00u8, 0x01, 0xfc, 0xfd, 0xff] {
+            for short_by in [0usize, 1] {
+                for tail in [&[][..], &[0x00, 0x00][..], &[0x01, 0x00, 0x41][..]] {
+                    let n = lo as usize + 253 * hi as usize;
+                    let body_len = n.min(70_000).saturating_sub(short_by);
+                    let mut y: Vec<u8> = vec![0x00, lo, hi];
+                    y.extend(std::iter::repeat(0x78u8).take(body_len));
+                    y.extend_from_slice(tail);
+                    let want = ref_dec(&y, 252, 64008);
+                    let run = |pieces: &[&[u8]]| -> Option<Vec<u8>> {
+                        let mut d = Decoder::new();
+                        for p in pieces {
+                            d.decode_copy(p).ok()?;
+                        }
+                        d.finish().ok().map(|v| v.flatten().expect("flat"))
+                    };
+                    let whole = run(&[&y]);
+                    let split_hdr = run(&[&y[..2], &y[2..]]);
+                    let bytes: Vec<&[u8]> = y[..y.len().min(6)].chunks(1).chain(std::iter::once(&y[y.len().min(6)..])).collect();
+                    let bytewise = run(&bytes);
+                    for (name, got) in [("whole", &whole), ("split-in-header", &split_hdr), ("bytewise-header", &bytewise)] {
+                        if *got != want {
+                            report("decoder-verdict-prod-header", &y[..y.len().min(8)],
+                                   &format!("lo={:02x} hi={:02x} body={} tail={} {}", lo, hi, body_len, tail.len(), name),
+                                   &format!("{:?}", got.as_ref().map(|v| v.len())), &format!("{:?}", want.as_ref().map(|v| v.len())));
+                        }
+                    }
+                }
+            }
+        }
+    }
+    // the empty stream is not a message
+    let d = Decoder::new();
+    if d.finish().is_ok() {
+        report("decoder-accepts-empty-stream", &[], "-", "Ok", "Err");
+    }
+}
